@@ -9,6 +9,8 @@ import KinModel.Lemmas.C02Term
 import KinModel.Lemmas.C02Complete
 import KinModel.LoaderJson
 import KinModel.Gen.ResolverSkeleton
+import KinModel.Gen.LoaderPositions
+import KinModel.Lemmas.C02Step
 namespace KinModel.Loader
 
 /-
@@ -168,6 +170,42 @@ theorem skeleton_table_recognised : ∀ r ∈ KinModel.Gen.resolverSkeleton, r.i
 theorem skeleton_matches_model :
     KinModel.Gen.resolverSkeleton =
       KinModel.LoaderJson.expectedSkeleton.map (fun r => KinModel.Gen.ResolverRow.row r.1 r.2.1 r.2.2) := by decide
+
+/-! ### (T) the child positions: walked (from the routines) and reference-capable (from the types)
+
+`Gen.loaderWalked` / `Gen.loaderRefPositions` are regenerated from openapi3/*.go on every run. -/
+
+theorem positions_table_recognised : ∀ r ∈ KinModel.Gen.loaderWalked, r.isRow = true := by decide
+
+/-- the position trees from which the model's `children` / `docChildren` are computed are, loop by loop and call by
+    call, what the routines, the two helpers and `ResolveRefsIn` do after the `$ref` block -/
+theorem walked_positions_match_model :
+    KinModel.Gen.loaderWalked = KinModel.LoaderJson.expectedWalked.map (fun r => KinModel.Gen.WalkRow.row r.1 r.2) := by decide
+
+/-- the positions at which the specification looks for references are exactly the fields of the type declarations
+    that can hold a reference-capable object -/
+theorem ref_positions_match_types :
+    KinModel.Gen.loaderRefPositions = KinModel.LoaderJson.expectedRefPositions := by decide
+
+/-- (#13 as a theorem) every position that can hold a reference-capable object by its type is handed to the resolver
+    of that kind by the routine of the enclosing kind (through the helpers), for all ten kinds and the document -/
+theorem walk_covers :
+    (∀ k ∈ KinModel.LoaderJson.kindsByGoName, ∀ p ∈ KinModel.LoaderJson.refPositions k,
+      ("/".intercalate p.1, KinModel.LoaderJson.goName p.2) ∈ KinModel.LoaderJson.walkedPaths (KinModel.LoaderJson.positions k)) ∧
+    (∀ p ∈ KinModel.LoaderJson.docRefPositions,
+      ("/".intercalate p.1, KinModel.LoaderJson.goName p.2) ∈ KinModel.LoaderJson.walkedPaths KinModel.LoaderJson.documentPos) := by
+  decide
+
+/-! ### (S) one-step functions: where loader and RFC can be compared on shared data -/
+
+/-- `unescapeRefString` decodes every pointer token exactly as RFC 6901 §4 prescribes, for all strings -/
+theorem pointer_unescape_agrees (s : List Char) : KinModel.LoaderJson.unescGo s = KinModel.LoaderJson.unescRfc s :=
+  KinModel.LoaderJson.unescGo_eq_unescRfc s
+
+/-- on rooted paths without empty segments `path.Clean` and RFC 3986 remove_dot_segments agree, whatever `.`/`..` occur -/
+theorem path_clean_agrees (segs : List String) (h : ∀ x ∈ segs, x ≠ "") :
+    KinModel.LoaderJson.cleanStack true segs [] = KinModel.LoaderJson.rfcStack segs [] :=
+  KinModel.LoaderJson.cleanStack_eq_rfcStack segs [] h (by simp)
 
 /-! ### Witnesses: the full statement fails of the code, inside each exclusion -/
 
